@@ -29,7 +29,7 @@ ASSUMPTIONS = [
     'documented respellings are normalised on both sides: set display vs set([...]), quote style, numeric formatting (compared by value)',
 ]
 FLOOR = {'quick': 10000, 'thorough': 100000}
-SPACE = {'quick': 'depth-2 trees (all forms x positions x forms); operator chains depth 3; 60 literal leaves; 40 values x 5 line lengths x 4 max-lines; seam conformance on 60 expressions',
+SPACE = {'quick': 'depth-2 trees (all forms x positions x forms); operator chains depth 3; 60 literal leaves; 53 values x 5 line lengths x 4 max-lines; seam conformance on 60 expressions',
          'thorough': 'quick + all depth-3 trees (parent x pos x child x pos x grandchild)'}
 
 UN = ['-', '+', 'not ', '~']
@@ -116,6 +116,9 @@ TRUNC_VALUES = [
     'a[1:2, ::3]', 'f"{a!r:>{w}}"', 'x.y(z)(w)[0].v', '{**a, "k": [1, 2, 3], **b}', '[*a, *b, 1, 2, 3, 4]', "'\\n'.join([str(i) for i in range(10)])",
     '1.5e300 * 2', '"a" "b" "c"', 'b"\\x00\\x01\\x02\\x03\\x04\\x05\\x06\\x07\\x08"', '((((1, 2), 3), 4), 5)', '{"k": {"k": {"k": {"k": 1}}}}', 'a < b <= c != d',
     'a @ b @ c', 'await x', 're.compile("abc")',
+    # escapes next to real line breaks: a backslash followed by n / t / a quote is text, a real newline is a line break
+    r"'C:\\new\\table'", r"rb'\n+'", r"'a\nb\\n'", r"'\\n'", r"b'a\nb\\nc'", r"'tab\there\nnew\\tline'", r"['x\\ny', 'aaaaaaaaaaaaaaaaaaaaaaaaaaaaaaaaaaaaaaaaaaaaaaaaaaaaaaaaaaaaaaaaaaaaaaaaaaaaaaaaaa']",
+    r'''"quote\"s and \\\" and '\n"''', r"'''x\ny''' + 'z\\n'", r"{'k\\n': 'v\nw'}", r"'\r\n\\r\\n'", r"'ends with backslash\\'", r"'\\' 'n'",
 ]
 LINELENS = [0, 5, 10, 20, 80]
 MAXLINES = [0, 1, 2, 7]
@@ -295,7 +298,9 @@ def judge_block(src: str, ll: int, ml: int, res: Dict[str, Any]) -> None:
     from pydoctor.epydoc.markup._pyval_repr import colorize_pyval
     from pydoctor import node2stan
     e = ast.parse(src, mode='eval').body
-    full = ''.join(node2stan.gettext(colorize_pyval(ast.parse(src, mode='eval').body, linelen=0, maxlines=0).to_node()))
+    # reference for 'was anything cut': the same line length without a limit on the number of lines (the layout of a value depends on the
+    # line length - a string inside a container that has to be broken is laid out on several lines - so linelen=0 is not comparable)
+    full = ''.join(node2stan.gettext(colorize_pyval(ast.parse(src, mode='eval').body, linelen=ll, maxlines=0).to_node()))
     r = colorize_pyval(ast.parse(src, mode='eval').body, linelen=ll, maxlines=ml)
     t = ''.join(node2stan.gettext(r.to_node()))
     res['evals'] += 1
